@@ -338,6 +338,35 @@ def run(ctx):
     for nme, tgt, cases, _ in SW:
         emodel += "    %s:\n      !switch %s:\n" % (nme, tgt) + "".join("        %s: %s\n" % c for c in cases)
     emodel += "PEx: !protocol\n  sequence:\n    items: !stream\n      items: Ex\n"
+    # operands that are *elements* of containers of narrow integers / float32 (numpy scalars in Python, narrow C++ integers): the arithmetic is
+    # done in the promoted type, so results beyond the element type are in range
+    NX = [
+        ("nsum8", "u8a[0] + u8a[1]", lambda v: v["u8a"][0] + v["u8a"][1]),
+        ("ndiff8", "u8a[0] - u8a[1]", lambda v: v["u8a"][0] - v["u8a"][1]),
+        ("nmul8", "u8a[2] * u8a[3]", lambda v: v["u8a"][2] * v["u8a"][3]),
+        # (`-u8a[0]` keeps the static type uint8 - a sign changes no type - so its exact value is out of range: not part of the value oracle)
+        ("nneg8", "0 - u8a[0]", lambda v: -v["u8a"][0]),
+        ("nsumi8", "i8v[0] + i8v[1]", lambda v: v["i8v"][0] + v["i8v"][1]),
+        ("nmuli8", "i8v[0] * i8v[1] * 2", lambda v: v["i8v"][0] * v["i8v"][1] * 2),
+        ("nmul16", "i16a[0, 1] * i16a[1, 0]", lambda v: v["i16a"][1] * v["i16a"][2]),
+        ("nsum16", "u16v[0] + u16v[1] + 1", lambda v: v["u16v"][0] + v["u16v"][1] + 1),
+        ("nmulu16", "u16v[0] * 2", lambda v: v["u16v"][0] * 2),
+        ("nmix8s", "u8a[0] + i8v[0]", lambda v: v["u8a"][0] + v["i8v"][0]),
+        ("nmix8i", "u8a[1] * ia", lambda v: v["u8a"][1] * v["ia"]),
+        ("nscal8", "u8s + u8s", lambda v: v["u8s"] + v["u8s"]),
+        ("nscal16", "i16s * i16s", lambda v: v["i16s"] * v["i16s"]),
+        ("nscalmix", "u8s * i16s - u8a[0]", lambda v: v["u8s"] * v["i16s"] - v["u8a"][0]),
+        ("ncast8", "(u8a[0] as int32) * 3", lambda v: v["u8a"][0] * 3),
+        ("nwide32", "(u32v[0] as uint64) + u32v[1]", lambda v: v["u32v"][0] + v["u32v"][1]),
+        ("nwidei32", "(i32v[0] as int64) * i32v[1]", lambda v: v["i32v"][0] * v["i32v"][1]),
+        ("nf32", "f32v[0] * 2.5 + u8a[0]", lambda v: v["f32v"][0] * 2.5 + v["u8a"][0]),
+        ("nsize", "(size(u8a) as int32) * u8a[3]", lambda v: 4 * v["u8a"][3]),
+    ]
+    emodel += ("Nx: !record\n  fields:\n    u8a: 'uint8[4]'\n    i8v: int8*\n    i16a: 'int16[2, 2]'\n    u16v: uint16*\n    u32v: uint32*\n    i32v: 'int32[2]'\n    f32v: float32*\n"
+               "    u8s: uint8\n    i16s: int16\n    ia: int32\n  computedFields:\n")
+    for nme, src, _ in NX:
+        emodel += "    %s: '%s'\n" % (nme, src)
+    emodel += "PNx: !protocol\n  sequence:\n    items: !stream\n      items: Nx\n"
     root = os.path.join(ctx.workdir, "values")
     pkgdir = write_pkg(root, "".join(vmodel) + emodel)
     p = cli.run_cli("generate", pkgdir, home)
@@ -352,7 +381,7 @@ def run(ctx):
     def methods_of(rec):
         m = re.search(r"^struct %s \{(.*?)^\};" % rec, cpp_h, re.M | re.S)
         return [f.group(1) for f in re.finditer(r"^  [\w:<>, ]+?(?: const&)? (\w+)\(\) const \{", m.group(1), re.M)]
-    protos = [("P" + rn, rn, methods_of(rn), "Items") for rn, _, _, _ in vrecs] + [("PEx", "Ex", methods_of("Ex"), "Items")]
+    protos = [("P" + rn, rn, methods_of(rn), "Items") for rn, _, _, _ in vrecs] + [("PEx", "Ex", methods_of("Ex"), "Items"), ("PNx", "Nx", methods_of("Nx"), "Items")]
     try:
         exe = cxx.build(os.path.join(root, "out/cpp"), "plain", driver_src=driver_src(info.ns, protos), tag="c19")
     except cxx.CompileError as e:
@@ -371,7 +400,10 @@ def run(ctx):
                         ("num3", U(((None, P("int32")), (None, P("float32")), (None, P("float64"))))),
                         ("arrt", A(P("int32"), (("col", None), ("row", None)))), ("dimname", P("string")), ("big1", P("int32")), ("big2", P("int32")), ("ubig", P("uint32"))]),
              Al("ENamedUn", U(((None, P("int32")), (None, P("string"))))),
-             Proto("PEx", [("items", S(N("Ex")))])]
+             Proto("PEx", [("items", S(N("Ex")))]),
+             Rec("Nx", [("u8a", A(P("uint8"), ((None, 4),))), ("i8v", V(P("int8"))), ("i16a", A(P("int16"), ((None, 2), (None, 2)))), ("u16v", V(P("uint16"))), ("u32v", V(P("uint32"))),
+                        ("i32v", A(P("int32"), ((None, 2),))), ("f32v", V(P("float32"))), ("u8s", P("uint8")), ("i16s", P("int16")), ("ia", P("int32"))]),
+             Proto("PNx", [("items", S(N("Nx")))])]
     hp = Pkg("Cf", defs)
     codec = Codec(hp)
     pysrc = open(os.path.join(root, "out/python", pypkg, "protocols.py")).read()
@@ -473,6 +505,41 @@ def run(ctx):
         # declared types of the expressions agree between C++ and Python
         for nm, _, _ in EXPRS:
             d = decl.get(("Ex", nm))
+            if d and None not in d and CPP_T.get(d[0], d[0]) != PY_T.get(d[1], d[1]):
+                ctx.violation("type-cpp-vs-python:expr", "expression %s: C++ declares %s, Python declares %s" % (nm, d[0], d[1]), {"case_dir": root})
+    # narrow container elements
+    r = rng("C19n")
+    nitems, nenvs = [], []
+    for k in range(12 if quick else 600):
+        u8a = [r.choice([200, 255, 128, r.randint(0, 255)]) for _ in range(4)]
+        i8v = [r.choice([-128, 127, 100, -100, r.randint(-128, 127)]) for _ in range(2)]
+        i16a = [r.choice([300, -300, 32767, -32768, r.randint(-32768, 32767)]) for _ in range(4)]
+        u16v = [r.choice([65535, 40000, r.randint(0, 65535)]) for _ in range(2)]
+        u32v = [r.choice([4294967295, 3000000000, r.randint(0, 2**32 - 1)]) for _ in range(2)]
+        i32v = [r.choice([2147483647, -2147483648, 70000, r.randint(-2**31, 2**31 - 1)]) for _ in range(2)]
+        f32v = [f32(r.choice([0.5, 1.25, -3.0, 1024.0]))]
+        u8s, i16s, ia = r.choice([255, 200, r.randint(0, 255)]), r.choice([32767, -32768, 300, r.randint(-32768, 32767)]), r.randint(-1000, 1000)
+        nitems.append([((4,), u8a), i8v, ((2, 2), i16a), u16v, u32v, ((2,), i32v), f32v, u8s, i16s, ia])
+        nenvs.append(dict(u8a=u8a, i8v=i8v, i16a=i16a, u16v=u16v, u32v=u32v, i32v=i32v, f32v=[f32v[0].value], u8s=u8s, i16s=i16s, ia=ia))
+    pr, rows_cpp, res, rows_py = run_both("PNx", nitems)
+    if rows_cpp is None or rows_py is None:
+        ctx.violation("driver-failed:%s" % ("cpp" if rows_cpp is None else "py"), "Nx: computed-field driver failed: %s %s" % (pr.stderr[-300:], res.get("error")), {"case_dir": root})
+    else:
+        pynames = [n.replace("_", "") for n in rows_py["names"]]
+        mcpp = [m.lower() for m in methods_of("Nx")]
+        for k, env in enumerate(nenvs):
+            for nm, src, fn in NX:
+                want = fn(env)
+                gc = rows_cpp[k][mcpp.index(nm)]
+                gp = rows_py["rows"][k][pynames.index(nm)]
+                ctx.case(("narrow", nm, k))
+                ctx.count("narrow.judged")
+                for lang, got in (("cpp", gc), ("py", gp)):
+                    ok = (got == want) if isinstance(want, int) and not isinstance(want, bool) else (isinstance(got, (int, float)) and abs(got - want) <= 1e-6 * max(1.0, abs(want)))
+                    if not ok:
+                        ctx.violation("expr:%s:narrow:%s" % (lang, nm), "expression `%s` over elements of narrow containers: %s returns %r, the value is %r (record #%d)" % (src, lang, got, want, k), {"case_dir": root, "env": repr(env)[:600]})
+        for nm, _, _ in NX:
+            d = decl.get(("Nx", nm))
             if d and None not in d and CPP_T.get(d[0], d[0]) != PY_T.get(d[1], d[1]):
                 ctx.violation("type-cpp-vs-python:expr", "expression %s: C++ declares %s, Python declares %s" % (nm, d[0], d[1]), {"case_dir": root})
     worker.close()
